@@ -92,6 +92,37 @@ theorem reject_is_validation (p : ChainParams) (hlim : p.powLimit < 2 ^ 256) (hH
     checkBlock p b fPoW fMerkle now = .ok () ∨ checkBlock p b fPoW fMerkle now = .error .validation :=
   (BlockCheckProofs.decide_verdict (BlockCheckProofs.checkBlock_decide p hlim hH b hb fPoW fMerkle now)).1
 
+/-- the Spec's coinbase, spelled out on the fields: exactly one input, whose outpoint is 32 zero bytes
+    with index 2³² − 1; the Python-mirroring helper `Tx.isCoinbase` (what the model calls) decides it -/
+theorem isCoinbase_char (t : Tx) :
+    (Spec.BlockCheck.IsCoinbase t ↔
+      ∃ i, t.vin = [i] ∧ i.prevout.hash = List.replicate 32 0 ∧ i.prevout.n = 0xffffffff) ∧
+    (t.isCoinbase = true ↔ Spec.BlockCheck.IsCoinbase t) := by
+  refine ⟨?_, BlockCheckProofs.isCoinbase_iff t⟩
+  unfold Spec.BlockCheck.IsCoinbase Spec.BlockCheck.NullOutPoint Spec.Merkle.zero32
+  rcases t.vin with _ | ⟨i, _ | ⟨j, r⟩⟩
+  · simp
+  · simp
+  · simp
+
+/-- switching a flag off never turns acceptance into rejection -/
+theorem checkBlock_mono_flags (p : ChainParams) (hlim : p.powLimit < 2 ^ 256) (hH : HashLen) (b : Block)
+    (hb : BlockRange b) (f g f' g' : Bool) (now : Int) (hf : f' = true → f = true) (hg : g' = true → g = true)
+    (h : checkBlock p b f g now = .ok ()) : checkBlock p b f' g' now = .ok () := by
+  rw [checkBlock_iff p hlim hH b hb] at h ⊢
+  obtain ⟨h1, h2, h3, h4, h5, h6, h7, h8, h9, h10⟩ := h
+  exact ⟨fun hh => h1 (hf hh), h2, h3, h4, h5, h6, h7, h8, h9, fun hh => h10 (hg hh)⟩
+
+/-- CVE-2012-2459 at the block level: the block obtained by repeating the last transaction has (for an
+    odd count > 1) the same merkle root (`C15.merkle_mutation_cve`) but is never valid — the txid
+    uniqueness rule rejects it -/
+theorem mutated_block_invalid (p : ChainParams) (now : Int) (f g : Bool) (b : Block) (l : List Tx) (t : Tx)
+    (hv : b.vtx = l ++ [t] ++ [t]) : ¬ Spec.BlockCheck.ValidBlock p now f g b := by
+  intro h
+  have hn := h.2.2.2.2.2.2.2.1
+  rw [hv] at hn
+  simp [List.nodup_append] at hn
+
 /-- the work limit of each of the four chains is a 256-bit number -/
 theorem chain_limits : ∀ p ∈ Spec.chainTable, p.powLimit < 2 ^ 256 := by decide
 
